@@ -21,6 +21,9 @@ def safe_edge(ctx, t, modname, e):
     try:
         ctx.edge(e)
     except Exception as exc:  # noqa
+        if type(exc).__name__ == "Unmodelled":      # the code did something the model has no action for (e.g. it accepted a call the
+            t.extra["skipped_unmodelled"] = t.extra.get("skipped_unmodelled", 0) + 1      # model treats as rejected): not judged further
+            return
         frames = traceback.extract_tb(exc.__traceback__)
         inner = frames[-1].filename if frames else ""
         if "/probables/" not in inner.replace("\\", "/") or "/vlib/" in inner:
